@@ -14,6 +14,12 @@ for path in sys.argv[1:]:
             what = "N2 one-ulp bump: two float segments meeting in a common end point (right end of one = left end of the other) are split next to it at two different points (DESIGN.md 7): " + "; ".join(v["clauses"])
             out[(v["property"], v["key"])] = {"status": "known", "property": "C16", "key": v["key"], "what": what}
             continue
+        if v["property"] == "C10" and fam == "fan":
+            what = ("N3 single precision: two edges leaving a shared vertex that are collinear to within 1e-7 relative are treated as overlapping by the f32 "
+                    "instantiation (the f32 cross product rounds to zero), so the f32 result differs from the f64 result although every coordinate is exactly "
+                    "representable (DESIGN.md 7): " + "; ".join(v["clauses"]))
+            out[(v["property"], v["key"])] = {"status": "known", "property": "C10", "key": v["key"], "what": what}
+            continue
         if fam not in ("L2i", "L2s", "L2i21"):
             print("NOT ELIGIBLE:", v["key"], v["clauses"], file=sys.stderr)
             continue
